@@ -6,7 +6,7 @@ from sim import core, values, world
 PROP = "C02"
 LEVEL = "exploration"
 BUDGET = {"quick": 300, "thorough": 1700}
-NCASES = {"quick": 1500, "thorough": 30000}
+NCASES = {"quick": 3000, "thorough": 40000}
 RULE = ("6 memento functions x 3 arguments whose scripted bodies return a value drawn from the documented result-type domain "
         "(54 catalogue kinds incl. NaN/inf/-0.0, empty and non-ASCII strings, aware/naive datetimes, 7 numpy dtypes in 1-d and "
         "2-d, pandas index/series/frame with plain, named and multi indexes, in-memory / nested / on-disk partitions, and "
